@@ -1,10 +1,14 @@
 """Build steps shared by the router-core checks (C01 C02 C03 C05 C10 C11 C12
 C13 C18 C20): the Coq model, its extraction, the OCaml runner and the Go
 harness test binary, all rebuilt (incrementally) on every check."""
+import hashlib
 import os
 import shutil
 
 import common
+
+
+MODEL_FILES = ["Base", "Msg", "Broker", "Dealer", "Realm", "Wire", "RouterTop", "Extract"]
 
 
 def build_model():
@@ -14,21 +18,30 @@ def build_model():
         return None, log
     d = common.build_dir("router_model")
     stamp = os.path.join(d, ".stamp")
-    srcs = [os.path.join(common.COQ, "Router", f) for f in sorted(os.listdir(os.path.join(common.COQ, "Router"))) if f.endswith(".v")]
+    # the extraction depends on the model files only (not on the proof files,
+    # which change far more often): content hash, not mtime
+    srcs = [os.path.join(common.COQ, "Router", f + ".v") for f in MODEL_FILES]
     srcs.append(os.path.join(common.VERIF, "ocaml", "router", "driver.ml"))
-    newest = max(os.path.getmtime(p) for p in srcs)
+    h = hashlib.sha256()
+    for p in srcs:
+        h.update(open(p, "rb").read())
+    digest = h.hexdigest()
     out = os.path.join(common.build_dir("bin"), "router_modelrun")
-    if os.path.exists(out) and os.path.exists(stamp) and os.path.getmtime(stamp) >= newest:
+    if os.path.exists(out) and os.path.exists(stamp) and open(stamp).read() == digest:
         return out, "up to date"
     with common.Lock("router-model"):
+        if os.path.exists(out) and os.path.exists(stamp) and open(stamp).read() == digest:
+            return out, "up to date"
         ok, log = common.coq_extract("Router/Extract.v", d)
         if not ok:
             return None, log
         shutil.copy(os.path.join(common.VERIF, "ocaml", "router", "driver.ml"), d)
-        ok, log2 = common.ocaml_build(["router_model.mli", "router_model.ml", "driver.ml"], out, d)
+        tmp = out + ".new.%d" % os.getpid()
+        ok, log2 = common.ocaml_build(["router_model.mli", "router_model.ml", "driver.ml"], tmp, d)
         if not ok:
             return None, log + log2
-        open(stamp, "w").write("ok")
+        os.replace(tmp, out)   # atomic: a check that is running the old binary keeps it
+        open(stamp, "w").write(digest)
     return out, log
 
 
